@@ -38,6 +38,9 @@ void _ZNSt7__cxx1112basic_stringIcSt11char_traitsIcESaIcEED1Ev(struct std_string
 /* string(const char*, const allocator&) : any length */
 void _ZNSt7__cxx1112basic_stringIcSt11char_traitsIcESaIcEEC1EPKcRKS3_(struct std_string *this, const char *s, const void *a)
 { (void)a; __CPROVER_assert(s != 0, "std::string(const char*): construction from null is not valid"); SZ(this) = __g2c_nondet_ulong(); __CPROVER_assume(SZ(this) <= MAXLEN); __havoc_str(this); STR_FROM_CSTR_HOOK(this, s) }
+/* string(const char* s, size_t n, const allocator&): copies exactly n bytes from s */
+void _ZNSt7__cxx1112basic_stringIcSt11char_traitsIcESaIcEEC1EPKcmRKS3_(struct std_string *this, const char *s, unsigned long n, const void *a)
+{ (void)a; __CPROVER_assert(n == 0 || __CPROVER_r_ok(s, n), "std::string(const char*, n): the n bytes are readable"); __CPROVER_assume(n <= MAXLEN); SZ(this) = n; __havoc_str(this); }
 /* string(const string&) */
 void _ZNSt7__cxx1112basic_stringIcSt11char_traitsIcESaIcEEC1ERKS4_(struct std_string *this, const struct std_string *o)
 { LIVE((void *)o, 32, "std::string(const string&)"); CW(this, 0) = CW(o, 0); CW(this, 1) = CW(o, 1); CW(this, 2) = CW(o, 2); CW(this, 3) = CW(o, 3); }
@@ -56,6 +59,23 @@ struct std_string *_ZNSt7__cxx1112basic_stringIcSt11char_traitsIcESaIcEE6assignE
 /* string& operator=(const string&) */
 struct std_string *_ZNSt7__cxx1112basic_stringIcSt11char_traitsIcESaIcEEaSERKS4_(struct std_string *this, const struct std_string *s)
 { LIVE(this, 32, "std::string::operator="); LIVE((void *)s, 32, "std::string::operator=(arg)"); CW(this, 0) = CW(s, 0); CW(this, 1) = CW(s, 1); CW(this, 2) = CW(s, 2); CW(this, 3) = CW(s, 3); return this; }
+/* string substr(pos, n) const: throws out_of_range if pos > size(); the copy has min(n, size() - pos) characters */
+struct std_string _ZNKSt7__cxx1112basic_stringIcSt11char_traitsIcESaIcEE6substrEmm(const struct std_string *this, unsigned long pos, unsigned long n)
+{
+  struct std_string r; LIVE((void *)this, 32, "std::string::substr");
+  CW(&r, 0) = __g2c_nondet_ulong(); CW(&r, 2) = __g2c_nondet_ulong(); CW(&r, 3) = __g2c_nondet_ulong(); SZ(&r) = 0;
+  if (pos > SZ(this)) { __throw_out_of_range(); return r; }
+  unsigned long rem = SZ(this) - pos; SZ(&r) = n < rem ? n : rem; return r;
+}
+void _ZNSt7__cxx1112basic_stringIcSt11char_traitsIcESaIcEE5clearEv(struct std_string *this) { LIVE(this, 32, "std::string::clear"); SZ(this) = 0; __havoc_str(this); CW(this, 0) = 0; }
+/* string& assign(string&&) / string(string&&): the contents move, the source is left valid but unspecified */
+struct std_string *_ZNSt7__cxx1112basic_stringIcSt11char_traitsIcESaIcEE6assignEOS4_(struct std_string *this, struct std_string *s)
+{ LIVE(this, 32, "std::string::assign(&&)"); LIVE(s, 32, "std::string::assign(&&)(arg)"); CW(this, 0) = CW(s, 0); CW(this, 1) = CW(s, 1); CW(this, 2) = CW(s, 2); CW(this, 3) = CW(s, 3); if (this != s) { SZ(s) = __g2c_nondet_ulong(); __CPROVER_assume(SZ(s) <= MAXLEN); } return this; }
+void _ZNSt7__cxx1112basic_stringIcSt11char_traitsIcESaIcEEC1EOS4_(struct std_string *this, struct std_string *s)
+{ LIVE(s, 32, "std::string(string&&)"); CW(this, 0) = CW(s, 0); CW(this, 1) = CW(s, 1); CW(this, 2) = CW(s, 2); CW(this, 3) = CW(s, 3); SZ(s) = 0; }
+/* size_t find(const string&, size_t pos) const: npos or a position p with p + size(s) <= size() */
+unsigned long _ZNKSt7__cxx1112basic_stringIcSt11char_traitsIcESaIcEE4findERKS4_m(const struct std_string *this, const struct std_string *s, unsigned long pos)
+{ LIVE((void *)this, 32, "std::string::find"); LIVE((void *)s, 32, "std::string::find(arg)"); (void)pos; unsigned long p = __g2c_nondet_ulong(); if (__g2c_nondet_bool()) return ~0ul; __CPROVER_assume(p >= pos && p <= SZ(this) && SZ(s) <= SZ(this) - p); return p; }
 /* replace(pos, n1, n2, c): throws out_of_range if pos > size() */
 struct std_string *_ZNSt7__cxx1112basic_stringIcSt11char_traitsIcESaIcEE7replaceEmmmc(struct std_string *this, unsigned long pos, unsigned long n1, unsigned long n2, char c)
 {
@@ -116,6 +136,24 @@ struct Value *_ZNSt6vectorIN4bloc5ValueESaIS1_EE2atEm(struct vec_Value *this, un
  * an iterator is the index of the element it designates; erase(pos) requires pos to be dereferenceable
  * (erase(end()) is undefined behaviour) */
 #ifdef ITERATOR_MODEL
+#ifndef G2C_HAVE_str_iterator
+struct str_iterator { _Alignas(8) unsigned char __opaque[8]; };   /* __normal_iterator: one pointer */
+#endif
+#ifndef G2C_HAVE_str_citerator
+struct str_citerator { _Alignas(8) unsigned char __opaque[8]; };   /* __normal_iterator: one pointer */
+#endif
+#ifndef G2C_HAVE_vchar_iterator
+struct vchar_iterator { _Alignas(8) unsigned char __opaque[8]; };   /* __normal_iterator: one pointer */
+#endif
+#ifndef G2C_HAVE_vchar_citerator
+struct vchar_citerator { _Alignas(8) unsigned char __opaque[8]; };   /* __normal_iterator: one pointer */
+#endif
+#ifndef G2C_HAVE_vval_iterator
+struct vval_iterator { _Alignas(8) unsigned char __opaque[8]; };   /* __normal_iterator: one pointer */
+#endif
+#ifndef G2C_HAVE_vval_citerator
+struct vval_citerator { _Alignas(8) unsigned char __opaque[8]; };   /* __normal_iterator: one pointer */
+#endif
 #define ITER_IDX(it) CW(it, 0)
 struct str_iterator _ZNSt7__cxx1112basic_stringIcSt11char_traitsIcESaIcEE5beginEv(struct std_string *this) { struct str_iterator it; LIVE(this, 32, "std::string::begin"); ITER_IDX(&it) = 0; return it; }
 struct vchar_iterator _ZNSt6vectorIcSaIcEE5beginEv(struct vec_char *this) { struct vchar_iterator it; LIVE(this, 24, "std::vector<char>::begin"); ITER_IDX(&it) = 0; return it; }
@@ -130,6 +168,9 @@ struct str_iterator _ZNSt7__cxx1112basic_stringIcSt11char_traitsIcESaIcEE5eraseE
 { struct str_iterator it; LIVE(this, 32, "std::string::erase"); __CPROVER_assert(ITER_IDX(&pos) < SZ(this), "std::string::erase(iterator): the position is dereferenceable (erase(end()) is undefined)"); SZ(this) = SZ(this) - 1; __havoc_str(this); ITER_IDX(&it) = ITER_IDX(&pos); return it; }
 struct vchar_iterator _ZNSt6vectorIcSaIcEE5eraseEN9__gnu_cxx17__normal_iteratorIPKcS1_EE(struct vec_char *this, struct vchar_citerator pos)
 { struct vchar_iterator it; LIVE(this, 24, "std::vector<char>::erase"); __CPROVER_assert(ITER_IDX(&pos) < SZ(this), "std::vector<char>::erase(iterator): the position is dereferenceable (erase(end()) is undefined)"); SZ(this) = SZ(this) - 1; CW(this, 0) = __g2c_nondet_ulong(); ITER_IDX(&it) = ITER_IDX(&pos); return it; }
+/* std::transform(first, last, out, int(*)(int)) over the characters of one string: the characters change, the length does not */
+struct str_iterator _ZSt9transformIN9__gnu_cxx17__normal_iteratorIPcNSt7__cxx1112basic_stringIcSt11char_traitsIcESaIcEEEEES9_PFiiEET0_T_SD_SC_T1_(struct str_iterator first, struct str_iterator last, struct str_iterator out, void *fn)
+{ (void)fn; __CPROVER_assert(ITER_IDX(&first) <= ITER_IDX(&last), "std::transform: [first, last) is a valid range"); struct str_iterator r; ITER_IDX(&r) = ITER_IDX(&out) + (ITER_IDX(&last) - ITER_IDX(&first)); return r; }
 /* end(), insert(pos, value), insert(pos, first, last): positions up to size() are valid; the range [first, last) is read from another container */
 struct vchar_iterator _ZNSt6vectorIcSaIcEE3endEv(struct vec_char *this) { struct vchar_iterator it; LIVE(this, 24, "std::vector<char>::end"); ITER_IDX(&it) = SZ(this); return it; }
 struct str_iterator _ZNSt7__cxx1112basic_stringIcSt11char_traitsIcESaIcEE3endEv(struct std_string *this) { struct str_iterator it; LIVE(this, 32, "std::string::end"); ITER_IDX(&it) = SZ(this); return it; }
@@ -156,9 +197,11 @@ struct vval_iterator _ZNSt6vectorIN4bloc5ValueESaIS1_EE6insertEN9__gnu_cxx17__no
   v->_flags = 0;
   ITER_IDX(&it) = ITER_IDX(&pos); return it;
 }
+#ifdef G2C_HAVE_Collection
 /* Collection::iterator Collection::erase(const_iterator pos) { return v.erase(pos); }  (collection.cpp; contract = std::vector::erase) */
 struct vval_iterator _ZN4bloc10Collection5eraseEN9__gnu_cxx17__normal_iteratorIPKNS_5ValueESt6vectorIS3_SaIS3_EEEE(struct Collection *this, struct vval_citerator pos)
 { struct vval_iterator it; __CPROVER_assert(ITER_IDX(&pos) < SZ(&this->v), "std::vector<Value>::erase(iterator): the position is dereferenceable (erase(end()) is undefined)"); SZ(&this->v) = SZ(&this->v) - 1; ITER_IDX(&it) = ITER_IDX(&pos); return it; }
+#endif /* G2C_HAVE_Collection */
 #endif
 #endif /* CONTAINERS_STRINGS_ONLY */
 #endif
